@@ -28,6 +28,7 @@ class Fn:
         self.parent = j.get('parent')
         self._cfg = None
         self._names = None
+        self.promoted = [PromotedFn(self, i, m) for i, m in enumerate(j.get('promoted', []))]
 
     # -- naming ---------------------------------------------------------------------------
     @property
@@ -92,6 +93,33 @@ class Fn:
 
     def __repr__(self):
         return '<Fn %s>' % self.path
+
+
+class PromotedFn(Fn):
+    """a promoted constant body of a function (evaluated on demand by the provenance engine)"""
+
+    def __init__(self, owner, idx, mir):
+        self.j = {}
+        self.facts = owner.facts
+        self.path = '%s::promoted[%d]' % (owner.path, idx)
+        self.dpath = self.path
+        self.kind = 'Promoted'
+        self.name = None
+        self.loc = owner.loc
+        self.mir = mir
+        self.blocks = mir['blocks']
+        self.locals = mir['locals']
+        self.argc = mir['argc']
+        self.impl_self = None
+        self.impl_trait = None
+        self.in_trait = None
+        self.vis = ''
+        self.is_unsafe = False
+        self.docs = ''
+        self.parent = owner.path
+        self._cfg = None
+        self._names = None
+        self.promoted = []
 
 
 def callee_path(t):
